@@ -79,6 +79,7 @@ type ctx struct {
 	seed int64
 	// every nativeEvery-th agreeing case is re-evaluated on a Go-native form of its input (0 = off)
 	nativeEvery int
+	parsedOnce  map[string]bool
 	nativeCount int
 	rng         *rng
 	drv         *driver
@@ -191,6 +192,16 @@ func (c *ctx) disagree(d Disagreement) {
 // implementation and with the model (on the implementation's own parse tree).
 // It returns the implementation outcome, the model outcome and whether they agree.
 func (c *ctx) diffEval(prog string, input interface{}, bucket string) (string, string, bool) {
+	// The model evaluates the tree the implementation parsed (so that evaluation is compared on equal terms); a defect in
+	// the parser's optimiser (node.go optimize: constant folding, path flattening, block handling) would therefore change
+	// both sides alike.  Every distinct program text is therefore also parsed by the Lean parser and the two trees are compared.
+	if c.parsedOnce == nil {
+		c.parsedOnce = map[string]bool{}
+	}
+	if !c.parsedOnce[prog] && len(c.parsedOnce) < 200000 {
+		c.parsedOnce[prog] = true
+		c.parseCompare(prog, "parse-of-evaluated-programs")
+	}
 	g := goEval(prog, input)
 	m, err := c.drv.modelEval(prog, input)
 	if err != nil {
